@@ -154,6 +154,10 @@ VersionOK(q) ==
               (IF pend.kind # "none" THEN {pend.target} ELSE {})
   IN \E v \in cand : rq[q].ran = Targets(q, v)
 
+\* a request that nothing stops (no failing rule, no stop tag of its own, no management call around) has run every
+\* rule it targets - whatever an EARLIER request on the same instance did or left behind
+FullRun(q) == rq[q].ran = Targets(q, cur)
+
 \* driver event req_end: the call returned to its caller
 \*   vals   : values of the result map (every rule returns its request's id)
 \*   frozen : the map was found unmodified at the end of the history
